@@ -1,5 +1,5 @@
 (* Proofs about the connection manager model Model/ConnMgr.v (stdlib only).
-   [fx = false]: conn_manager.go as it is; [fx = true]: with the proposed repair CONN-1. *)
+   [fx = true]: conn_manager.go as it is; [fx = false]: as it was before the repair CONN-1 (/repo ac94f55). *)
 From Coq Require Import List NArith Bool Lia Arith.
 From OC Require Import Model.ConnMgr.
 Import ListNotations.
@@ -160,3 +160,689 @@ Proof.
     rewrite set_nth_other in H1, H2 by assumption. eauto.
 Qed.
 
+
+(** * One sample *)
+Lemma set_nth_id {A} (l : list A) n x : nth_error l n = Some x -> set_nth n x l = l.
+Proof.
+  revert n; induction l as [|a l IH]; intros [|n] Hn; cbn in *; try discriminate; auto.
+  - inversion Hn; reflexivity.
+  - f_equal; auto.
+Qed.
+
+Lemma set_nth_twice {A} (l : list A) n x y : set_nth n x (set_nth n y l) = set_nth n x l.
+Proof.
+  revert n; induction l as [|a l IH]; intros [|n]; cbn; auto. f_equal; auto.
+Qed.
+
+Definition only_connect (g : nat) (o : list out) : Prop := forall x, In x o -> x = CallConnect g.
+
+Lemma only_connect_nil g : only_connect g [].
+Proof. intros x []. Qed.
+
+Lemma only_connect_one g : only_connect g [CallConnect g].
+Proof. intros x [<-|[]]; reflexivity. Qed.
+
+Lemma only_connect_added g o : only_connect g o -> added_ids o = [].
+Proof.
+  induction o as [|x o IH]; intros H; auto. cbn. rewrite (H x (or_introl eq_refl)). cbn. apply IH.
+  intros y Hy. apply H. right; exact Hy.
+Qed.
+
+Lemma only_connect_alternates g k o c : only_connect k o -> alternates g c o = Some c.
+Proof.
+  induction o as [|x o IH]; intros H; auto. cbn. rewrite (H x (or_introl eq_refl)). apply IH.
+  intros y Hy. apply H. right; exact Hy.
+Qed.
+
+Lemma only_connect_no_removed k o g t id : only_connect k o -> ~ In (Removed g t id) o.
+Proof. intros H Hin. apply H in Hin. discriminate. Qed.
+
+Ltac fin := repeat split; auto; try contradiction; try discriminate; try apply only_connect_nil; try apply only_connect_one.
+
+(** what [on_state] can do, case by case *)
+Lemma on_state_cases fx m g go s :
+  gor_ok go ->
+  (g_conn go = None /\ s = Ready /\ on_state fx m g go s = add_conn m g go) \/
+  (exists id tl, g_conn go = Some id /\ g_started go = true /\ s <> Ready /\ (s = Idle -> fx = true) /\ only_connect g tl /\
+                 on_state fx m g go s = (fst (remove_conn m g go id), snd (remove_conn m g go id) ++ tl)) \/
+  (g_started go = false /\ s <> Ready /\
+   on_state fx m g go s = (set_gor m g (mkGor (g_target go) (g_conn go) true (g_alive go)), [])) \/
+  (exists o, g_started go = true /\ only_connect g o /\ (s = Ready -> g_conn go <> None) /\
+             (g_conn go = None \/ s = Ready \/ (s = Idle /\ fx = false)) /\ on_state fx m g go s = (m, o)).
+Proof.
+  intros [Hs _]. unfold on_state. destruct (g_started go) eqn:Hst.
+  - assert (Hrm : forall id, g_conn go = Some id -> s <> Ready -> s <> Idle ->
+                             match g_conn go with Some id => remove_conn m g go id | None => (m, []) end =
+                             (fst (remove_conn m g go id), snd (remove_conn m g go id) ++ [])).
+    { intros id Hc _ _. rewrite Hc, app_nil_r. destruct (remove_conn m g go id); reflexivity. }
+    assert (Hcases : s <> Ready -> s <> Idle ->
+      (exists id tl, g_conn go = Some id /\ true = true /\ s <> Ready /\ (s = Idle -> fx = true) /\ only_connect g tl /\
+                 match g_conn go with Some id => remove_conn m g go id | None => (m, []) end =
+                 (fst (remove_conn m g go id), snd (remove_conn m g go id) ++ tl)) \/
+      (exists o, true = true /\ only_connect g o /\ (s = Ready -> g_conn go <> None) /\
+                 (g_conn go = None \/ s = Ready \/ (s = Idle /\ fx = false)) /\
+                 match g_conn go with Some id => remove_conn m g go id | None => (m, []) end = (m, o))).
+    { intros H1 H2. destruct (g_conn go) as [id|] eqn:Hc.
+      - left. exists id, []. fin.
+      - right. exists []. fin. }
+    destruct s.
+    + destruct fx.
+      * destruct (g_conn go) as [id|] eqn:Hc.
+        -- right; left. exists id, [CallConnect g]. fin.
+           try (destruct (remove_conn m g go id); reflexivity).
+        -- right; right; right. exists [CallConnect g]. fin.
+      * right; right; right. exists [CallConnect g]. fin.
+    + destruct Hcases as [H|H]; try discriminate; [right; left; exact H|right; right; right; exact H].
+    + destruct (g_conn go) as [id|] eqn:Hc.
+      * right; right; right. exists []. fin.
+      * left. auto.
+    + destruct Hcases as [H|H]; try discriminate; [right; left; exact H|right; right; right; exact H].
+    + destruct Hcases as [H|H]; try discriminate; [right; left; exact H|right; right; right; exact H].
+  - destruct s; try (right; right; left; repeat split; auto; discriminate).
+    left. auto.
+Qed.
+
+Lemma after_state_inv m g ws s :
+  Inv m -> (s = Shutdown -> ws = true -> gconn m g = None) -> Inv (after_state m g ws s).
+Proof.
+  intros HI Hnone. unfold after_state.
+  destruct s; auto. destruct ws; auto. destruct (nth_error (m_gors m) g) as [go|] eqn:Hg; auto.
+  specialize (Hnone eq_refl eq_refl). unfold gconn in Hnone. rewrite Hg in Hnone.
+  eapply set_gor_inv; eauto. split; cbn; intros; auto.
+Qed.
+
+Lemma sample_inv fx m g s : Inv m -> Inv (fst (sample fx m g s)).
+Proof.
+  intros HI. unfold sample. destruct (nth_error (m_gors m) g) as [go|] eqn:Hg; auto.
+  destruct (g_alive go) eqn:Ha; auto.
+  destruct (on_state fx m g go s) as [m1 o] eqn:Hos. cbn [fst].
+  destruct (on_state_cases fx m g go s (inv_ok _ HI _ _ Hg))
+    as [(Hc & Hs & Heq) | [(id & tl & Hc & Hst & Hs & Hfx & Htl & Heq) | [(Hst & Hs & Heq) | (o' & Hst & Ho & Hr & Hdis & Heq)]]];
+    rewrite Hos in Heq.
+  - replace m1 with (fst (add_conn m g go)) by (rewrite <- Heq; reflexivity).
+    apply after_state_inv. { apply add_conn_inv; auto. }
+    intros H; rewrite Hs in H; discriminate.
+  - assert (Hm1 : m1 = fst (remove_conn m g go id)) by (inversion Heq; reflexivity). rewrite Hm1.
+    apply after_state_inv. { apply remove_conn_inv; auto. }
+    intros _ _. rewrite (remove_conn_eq _ _ _ _ HI Hg Hc). unfold gconn; cbn. rewrite (set_nth_same _ _ _ _ Hg). reflexivity.
+  - inversion Heq; subst m1 o. apply after_state_inv.
+    { eapply set_gor_inv; eauto. split; cbn; intros; try discriminate; try (apply (inv_ok _ HI _ _ Hg); auto). }
+    intros _ Hws. congruence.
+  - inversion Heq; subst m1 o. apply after_state_inv; auto.
+    intros Hsd _. destruct Hdis as [Hn|[Hr'|[Hi _]]]; subst; try discriminate. unfold gconn. rewrite Hg. exact Hn.
+Qed.
+
+Lemma step_inv fx m e : Inv m -> Inv (fst (step fx m e)).
+Proof.
+  intros HI. destruct e as [t|t|g s]; cbn.
+  - destruct (lookup t (m_targets m)); cbn; auto.
+    destruct HI as [Hok Hown Hmap Huq]. split; cbn.
+    + intros g go Hg. apply nth_error_snoc in Hg. destruct Hg as [Hg|[_ [-> _]]]; eauto. split; cbn; auto.
+    + intros g go id Hg Hc. apply nth_error_snoc in Hg. destruct Hg as [Hg|[_ [-> _]]]; eauto. discriminate.
+    + intros id t' Hl. destruct (Hmap _ _ Hl) as [Hlt [g [go [Hg Hr]]]]. split; auto.
+      exists g, go. split; auto. rewrite nth_error_app1; auto. apply nth_error_Some; congruence.
+    + intros g1 g2 x1 x2 id H1 H2 Hx1 Hx2.
+      apply nth_error_snoc in H1. apply nth_error_snoc in H2.
+      destruct H1 as [H1|[_ [-> _]]]; [|discriminate]. destruct H2 as [H2|[_ [-> _]]]; [|discriminate]. eauto.
+  - destruct (lookup t (m_targets m)); cbn; auto.
+    destruct HI as [Hok Hown Hmap Huq]. split; cbn; eauto.
+  - apply sample_inv; auto.
+Qed.
+
+Lemma run_from_app fx m a b :
+  run_from fx m (a ++ b) =
+  let '(m1, o1) := run_from fx m a in let '(m2, o2) := run_from fx m1 b in (m2, o1 ++ o2).
+Proof.
+  revert m; induction a as [|e a IH]; intros m; cbn.
+  - destruct (run_from fx m b); reflexivity.
+  - destruct (step fx m e) as [m1 o1]. rewrite IH.
+    destruct (run_from fx m1 a) as [m2 o2]. destruct (run_from fx m2 b) as [m3 o3]. rewrite app_assoc. reflexivity.
+Qed.
+
+Lemma run_from_inv fx m es : Inv m -> Inv (fst (run_from fx m es)).
+Proof.
+  revert m; induction es as [|e es IH]; intros m HI; cbn; auto.
+  pose proof (step_inv fx m e HI) as H1. destruct (step fx m e) as [m1 o1]. cbn in H1.
+  specialize (IH m1 H1). destruct (run_from fx m1 es) as [m2 o2]. exact IH.
+Qed.
+
+(** * What one sample of a live goroutine does (everything later is proved from this) *)
+Definition is_shutdown (s : chan_state) : bool := match s with Shutdown => true | _ => false end.
+
+Inductive sample_kind (fx : bool) (m : mgr) (k : nat) (go go' : gor) (s : chan_state) (m' : mgr) (o : list out) : Prop :=
+| SkAdd : g_conn go = None -> s = Ready -> g_conn go' = Some (m_next m) ->
+          m_conns m' = (m_next m, g_target go) :: m_conns m -> m_next m' = m_next m + 1 ->
+          o = [Added k (g_target go) (m_next m)] -> sample_kind fx m k go go' s m' o
+| SkRemove id tl : g_conn go = Some id -> g_started go = true -> s <> Ready -> (s = Idle -> fx = true) ->
+          g_conn go' = None -> m_conns m' = remove_key id (m_conns m) -> m_next m' = m_next m ->
+          o = Removed k (g_target go) id :: tl -> only_connect k tl -> sample_kind fx m k go go' s m' o
+| SkKeep : g_conn go' = g_conn go -> m_conns m' = m_conns m -> m_next m' = m_next m -> only_connect k o ->
+          (s = Ready -> g_conn go <> None) ->
+          (g_started go = true -> g_conn go = None \/ s = Ready \/ (s = Idle /\ fx = false)) ->
+          sample_kind fx m k go go' s m' o.
+
+Lemma after_state_eq m k ws s go1 :
+  nth_error (m_gors m) k = Some go1 ->
+  after_state m k ws s =
+  if is_shutdown s && ws then set_gor m k (mkGor (g_target go1) (g_conn go1) (g_started go1) false) else m.
+Proof.
+  intros Hk. unfold after_state. destruct s; cbn; auto. destruct ws; auto. rewrite Hk. reflexivity.
+Qed.
+
+Lemma sample_spec fx m k s go :
+  Inv m -> nth_error (m_gors m) k = Some go -> g_alive go = true ->
+  exists go',
+    m_gors (fst (sample fx m k s)) = set_nth k go' (m_gors m) /\
+    m_targets (fst (sample fx m k s)) = m_targets m /\
+    g_target go' = g_target go /\ g_started go' = true /\
+    g_alive go' = negb (is_shutdown s && g_started go) /\
+    sample_kind fx m k go go' s (fst (sample fx m k s)) (snd (sample fx m k s)).
+Proof.
+  intros HI Hg Ha. unfold sample. rewrite Hg, Ha.
+  destruct (on_state fx m k go s) as [m1 o] eqn:Hos. cbn [fst snd].
+  destruct (on_state_cases fx m k go s (inv_ok _ HI _ _ Hg))
+    as [(Hc & Hs & Heq) | [(id & tl & Hc & Hst & Hs & Hfx & Htl & Heq) | [(Hst & Hs & Heq) | (o' & Hst & Ho & Hr & Hdis & Heq)]]];
+    rewrite Hos in Heq.
+  - unfold add_conn in Heq. inversion Heq; subst m1 o; clear Heq. subst s.
+    exists (mkGor (g_target go) (Some (m_next m)) true (g_alive go)). cbn.
+    repeat split; auto. apply SkAdd; auto.
+  - rewrite (remove_conn_eq _ _ _ _ HI Hg Hc) in Heq. cbn in Heq. inversion Heq; subst m1 o; clear Heq.
+    erewrite after_state_eq by (cbn; apply (set_nth_same _ _ _ _ Hg)). rewrite Hst, andb_true_r.
+    destruct (is_shutdown s) eqn:Hsd.
+    + exists (mkGor (g_target go) None true false). cbn. rewrite set_nth_twice.
+      repeat split; auto. eapply SkRemove; eauto.
+    + exists (mkGor (g_target go) None true (g_alive go)). cbn.
+      repeat split; auto. eapply SkRemove; eauto.
+  - inversion Heq; subst m1 o; clear Heq.
+    erewrite after_state_eq by (cbn; apply (set_nth_same _ _ _ _ Hg)). rewrite Hst, andb_false_r.
+    exists (mkGor (g_target go) (g_conn go) true (g_alive go)). cbn.
+    repeat split; auto. apply SkKeep; auto; try apply only_connect_nil; try (intros; congruence).
+  - inversion Heq; subst m1 o; clear Heq.
+    rewrite (after_state_eq _ _ _ _ _ Hg). rewrite Hst, andb_true_r.
+    destruct (is_shutdown s) eqn:Hsd.
+    + exists (mkGor (g_target go) (g_conn go) true false). cbn.
+      repeat split; auto. apply SkKeep; auto.
+    + exists go. cbn. rewrite (set_nth_id _ _ _ Hg).
+      repeat split; auto. apply SkKeep; auto.
+Qed.
+
+Lemma sample_dead fx m k s :
+  (nth_error (m_gors m) k = None \/ exists go, nth_error (m_gors m) k = Some go /\ g_alive go = false) ->
+  sample fx m k s = (m, []).
+Proof.
+  unfold sample. intros [H|[go [H Ha]]]; rewrite H; auto. rewrite Ha. reflexivity.
+Qed.
+
+Lemma gor_cases m k :
+  (nth_error (m_gors m) k = None \/ exists go, nth_error (m_gors m) k = Some go /\ g_alive go = false) \/
+  (exists go, nth_error (m_gors m) k = Some go /\ g_alive go = true).
+Proof.
+  destruct (nth_error (m_gors m) k) as [go|]; auto. destruct (g_alive go) eqn:Ha; eauto.
+Qed.
+
+(** * (ii) connection ids are never reused *)
+Fixpoint increasing_from (lo : N) (l : list N) : Prop :=
+  match l with
+  | [] => True
+  | x :: r => lo <= x /\ increasing_from (x + 1) r
+  end.
+
+Lemma increasing_from_weaken lo lo' l : lo' <= lo -> increasing_from lo l -> increasing_from lo' l.
+Proof. destruct l; cbn; auto. intros H [H1 H2]. split; auto. lia. Qed.
+
+Lemma increasing_from_app lo l1 mid l2 :
+  increasing_from lo l1 -> (forall x, In x l1 -> x < mid) -> lo <= mid -> increasing_from mid l2 -> increasing_from lo (l1 ++ l2).
+Proof.
+  revert lo; induction l1 as [|x l1 IH]; intros lo H1 Hb Hlo H2; cbn in *.
+  - eapply increasing_from_weaken; eauto.
+  - destruct H1 as [Hx H1]. split; auto. apply IH; auto. specialize (Hb x (or_introl eq_refl)). lia.
+Qed.
+
+Lemma increasing_from_bound lo l x : increasing_from lo l -> In x l -> lo <= x.
+Proof.
+  revert lo; induction l as [|y l IH]; intros lo H Hin; cbn in *; [contradiction|].
+  destruct H as [Hy H]. destruct Hin as [->|Hin]; auto. specialize (IH _ H Hin). lia.
+Qed.
+
+Lemma increasing_from_NoDup lo l : increasing_from lo l -> NoDup l.
+Proof.
+  revert lo; induction l as [|x l IH]; intros lo H; constructor; cbn in H; destruct H as [Hx H].
+  - intros Hin. pose proof (increasing_from_bound _ _ _ H Hin). lia.
+  - eauto.
+Qed.
+
+Definition ids_ok (m m1 : mgr) (o : list out) : Prop :=
+  m_next m <= m_next m1 /\ increasing_from (m_next m) (added_ids o) /\ (forall x, In x (added_ids o) -> x < m_next m1).
+
+Ltac ids_triv := unfold ids_ok; cbn; split; [lia | split; [cbn; auto; try lia | cbn; intros ? ?; try contradiction]].
+
+Lemma ids_ok_nil m : ids_ok m m [].
+Proof. ids_triv. Qed.
+
+Lemma step_ids fx m e : Inv m -> ids_ok m (fst (step fx m e)) (snd (step fx m e)).
+Proof.
+  intros HI. destruct e as [t|t|k s]; cbn.
+  - destruct (lookup t (m_targets m)); ids_triv.
+  - destruct (lookup t (m_targets m)); ids_triv.
+  - destruct (gor_cases m k) as [Hd|[go [Hk Ha]]].
+    + rewrite (sample_dead _ _ _ _ Hd). apply ids_ok_nil.
+    + destruct (sample_spec fx m k s go HI Hk Ha) as [go' (_ & _ & _ & _ & _ & Hkind)].
+      destruct (sample fx m k s) as [m1 o]. cbn in *.
+      destruct Hkind as [Hc Hs Hc' Hcs Hn Ho | id tl Hc Hst Hs Hfx Hc' Hcs Hn Ho Htl | Hc' Hcs Hn Ho _ _].
+      * subst o. unfold ids_ok. cbn. split; [lia|]. split; [split; [lia|exact I]|]. intros x [<-|[]]; lia.
+      * subst o. assert (Hz : added_ids (Removed k (g_target go) id :: tl) = [])
+          by (change (added_ids tl = []); apply (only_connect_added _ _ Htl)).
+        unfold ids_ok. rewrite Hz. ids_triv.
+      * unfold ids_ok. rewrite (only_connect_added _ _ Ho). ids_triv.
+Qed.
+
+Lemma added_ids_app a b : added_ids (a ++ b) = added_ids a ++ added_ids b.
+Proof. unfold added_ids. apply flat_map_app. Qed.
+
+Lemma run_from_ids fx m es : Inv m -> ids_ok m (fst (run_from fx m es)) (snd (run_from fx m es)).
+Proof.
+  revert m; induction es as [|e es IH]; intros m HI; cbn.
+  - apply ids_ok_nil.
+  - pose proof (step_ids fx m e HI) as H1. pose proof (step_inv fx m e HI) as HI1.
+    destruct (step fx m e) as [m1 o1]. cbn in *. specialize (IH m1 HI1).
+    destruct (run_from fx m1 es) as [m2 o2]. cbn in *. destruct H1 as [Ha [Hb Hc]]. destruct IH as [Hd [He Hf]].
+    unfold ids_ok. rewrite added_ids_app. split; [lia|]. split.
+    + eapply increasing_from_app; eauto.
+    + intros x Hx. apply in_app_or in Hx. destruct Hx as [Hx|Hx]; auto. specialize (Hc x Hx). lia.
+Qed.
+
+Theorem ids_increasing fx n0 es : increasing_from n0 (added_ids (snd (run_from fx (init n0) es))).
+Proof. apply (run_from_ids fx (init n0) es (Inv_init n0)). Qed.
+
+Theorem ids_never_reused fx n0 es : NoDup (added_ids (snd (run_from fx (init n0) es))).
+Proof. eapply increasing_from_NoDup, ids_increasing. Qed.
+
+(** * (iii) at most one live connection per Connect: Added and Removed of a goroutine alternate *)
+Lemma alternates_app g cur a b :
+  alternates g cur (a ++ b) = match alternates g cur a with Some c => alternates g c b | None => None end.
+Proof.
+  revert cur; induction a as [|x a IH]; intros cur; cbn; auto.
+  destruct x as [g' t id|g' t id| | |]; auto.
+  - destruct (Nat.eqb g' g); auto. destruct cur; auto.
+  - destruct (Nat.eqb g' g); auto. destruct cur as [id'|]; auto. destruct (id' =? id); auto.
+Qed.
+
+Lemma gconn_set_nth m' m k go' g :
+  m_gors m' = set_nth k go' (m_gors m) -> nth_error (m_gors m) k <> None ->
+  gconn m' g = if Nat.eqb k g then g_conn go' else gconn m g.
+Proof.
+  intros Hgs Hk. unfold gconn. rewrite Hgs. destruct (Nat.eqb k g) eqn:Hkg.
+  - apply Nat.eqb_eq in Hkg; subst g. destruct (nth_error (m_gors m) k) eqn:Hn; [|congruence].
+    rewrite (set_nth_same _ _ _ _ Hn). reflexivity.
+  - apply Nat.eqb_neq in Hkg. rewrite set_nth_other by congruence. reflexivity.
+Qed.
+
+Lemma step_alternates fx m e g :
+  Inv m -> alternates g (gconn m g) (snd (step fx m e)) = Some (gconn (fst (step fx m e)) g).
+Proof.
+  intros HI. destruct e as [t|t|k s]; cbn.
+  - destruct (lookup t (m_targets m)); cbn; auto. f_equal. unfold gconn; cbn.
+    destruct (nth_error (m_gors m) g) as [go|] eqn:Hg.
+    + rewrite nth_error_app1 by (apply nth_error_Some; congruence). rewrite Hg. reflexivity.
+    + destruct (nth_error (m_gors m ++ [mkGor t None false true]) g) as [go|] eqn:Hg'; auto.
+      apply nth_error_snoc in Hg'. destruct Hg' as [Hg'|[_ [-> _]]]; [congruence|reflexivity].
+  - destruct (lookup t (m_targets m)); cbn; auto.
+  - destruct (gor_cases m k) as [Hd|[go [Hk Ha]]].
+    + rewrite (sample_dead _ _ _ _ Hd). reflexivity.
+    + destruct (sample_spec fx m k s go HI Hk Ha) as [go' (Hgs & _ & _ & _ & _ & Hkind)].
+      destruct (sample fx m k s) as [m1 o]. cbn in *.
+      rewrite (gconn_set_nth _ _ _ _ g Hgs) by congruence.
+      destruct Hkind as [Hc Hs Hc' Hcs Hn Ho | id tl Hc Hst Hs Hfx Hc' Hcs Hn Ho Htl | Hc' Hcs Hn Ho _ _].
+      * subst o. cbn. destruct (Nat.eqb k g) eqn:Hkg; auto.
+        apply Nat.eqb_eq in Hkg; subst g. unfold gconn. rewrite Hk, Hc, Hc'. reflexivity.
+      * subst o. cbn. destruct (Nat.eqb k g) eqn:Hkg.
+        -- apply Nat.eqb_eq in Hkg; subst g. unfold gconn. rewrite Hk, Hc, N.eqb_refl, Hc'.
+           apply (only_connect_alternates _ _ _ _ Htl).
+        -- apply (only_connect_alternates _ _ _ _ Htl).
+      * rewrite (only_connect_alternates _ _ _ _ Ho). destruct (Nat.eqb k g) eqn:Hkg; auto.
+        apply Nat.eqb_eq in Hkg; subst g. unfold gconn. rewrite Hk, Hc'. reflexivity.
+Qed.
+
+Lemma run_from_alternates fx m es g :
+  Inv m -> alternates g (gconn m g) (snd (run_from fx m es)) = Some (gconn (fst (run_from fx m es)) g).
+Proof.
+  revert m; induction es as [|e es IH]; intros m HI; cbn; auto.
+  pose proof (step_alternates fx m e g HI) as H1. pose proof (step_inv fx m e HI) as HI1.
+  destruct (step fx m e) as [m1 o1]. cbn in *. specialize (IH m1 HI1).
+  destruct (run_from fx m1 es) as [m2 o2]. cbn in *. rewrite alternates_app, H1. exact IH.
+Qed.
+
+Theorem one_live_per_connect fx n0 es g :
+  alternates g None (snd (run_from fx (init n0) es)) = Some (gconn (fst (run_from fx (init n0) es)) g).
+Proof.
+  pose proof (run_from_alternates fx (init n0) es g (Inv_init n0)) as H.
+  replace (gconn (init n0) g) with (@None N) in H; auto.
+  unfold gconn; cbn. destruct g; reflexivity.
+Qed.
+
+(** the m.conns map (what Get answers from) holds exactly the current connections of the goroutines, each once *)
+Theorem get_is_live fx n0 es id t :
+  let m := fst (run_from fx (init n0) es) in
+  get m id = Some t <-> exists g go, nth_error (m_gors m) g = Some go /\ g_conn go = Some id /\ g_target go = t.
+Proof.
+  cbn. pose proof (run_from_inv fx (init n0) es (Inv_init n0)) as HI.
+  destruct (run_from fx (init n0) es) as [m o]. cbn in *. unfold get. split.
+  - intros H. apply (inv_map _ HI _ _ H).
+  - intros [g [go [Hg [Hc <-]]]]. apply (inv_own _ HI _ _ _ Hg Hc).
+Qed.
+
+Theorem conn_of_one_connect fx n0 es g1 g2 id :
+  let m := fst (run_from fx (init n0) es) in
+  gconn m g1 = Some id -> gconn m g2 = Some id -> g1 = g2.
+Proof.
+  cbn. pose proof (run_from_inv fx (init n0) es (Inv_init n0)) as HI.
+  destruct (run_from fx (init n0) es) as [m o]. cbn in *. unfold gconn.
+  destruct (nth_error (m_gors m) g1) eqn:H1; [|discriminate]. destruct (nth_error (m_gors m) g2) eqn:H2; [|discriminate].
+  intros. eapply (inv_uniq _ HI); eauto.
+Qed.
+
+(** a removed id is never handed out again: Get(id) fails from the Removed event on *)
+Lemma step_conns fx m e id :
+  Inv m ->
+  (id < m_next m -> get m id = None -> get (fst (step fx m e)) id = None) /\
+  (forall g t, In (Removed g t id) (snd (step fx m e)) -> get (fst (step fx m e)) id = None /\ id < m_next (fst (step fx m e))).
+Proof.
+  intros HI. destruct e as [t|t|k s]; cbn.
+  - destruct (lookup t (m_targets m)); cbn; split; auto; intros g t0 Hin; try contradiction;
+      destruct Hin as [Hin|[]]; discriminate.
+  - destruct (lookup t (m_targets m)); cbn; split; auto; intros g t0 Hin; try contradiction;
+      destruct Hin as [Hin|[]]; discriminate.
+  - destruct (gor_cases m k) as [Hd|[go [Hk Ha]]].
+    + rewrite (sample_dead _ _ _ _ Hd). cbn. split; auto. intros g t [].
+    + destruct (sample_spec fx m k s go HI Hk Ha) as [go' (Hgs & _ & _ & _ & _ & Hkind)].
+      destruct (sample fx m k s) as [m1 o]. cbn in *. unfold get in *.
+      destruct Hkind as [Hc Hs Hc' Hcs Hn Ho | id' tl Hc Hst Hs Hfx Hc' Hcs Hn Ho Htl | Hc' Hcs Hn Ho _ _].
+      * subst o. rewrite Hcs. cbn. split.
+        -- intros Hlt Hd. destruct (m_next m =? id) eqn:He; [apply N.eqb_eq in He; lia|exact Hd].
+        -- intros g t [H|[]]; discriminate.
+      * subst o. rewrite Hcs, Hn. split.
+        -- intros Hlt Hd. rewrite lookup_remove_key. destruct (id =? id'); auto.
+        -- intros g t [H|H].
+           ++ inversion H; subst. rewrite lookup_remove_key, N.eqb_refl. split; auto.
+              apply (inv_own _ HI _ _ _ Hk Hc).
+           ++ apply Htl in H. discriminate.
+      * rewrite Hcs. split; auto. intros g t H. apply Ho in H. discriminate.
+Qed.
+
+Lemma dead_stays_dead fx m es id :
+  Inv m -> id < m_next m -> get m id = None -> get (fst (run_from fx m es)) id = None.
+Proof.
+  revert m; induction es as [|e es IH]; intros m HI Hlt Hd; cbn; auto.
+  pose proof (step_inv fx m e HI) as HI1. pose proof (step_ids fx m e HI) as [Hn _].
+  destruct (step_conns fx m e id HI) as [Hd1 _]. specialize (Hd1 Hlt Hd).
+  destruct (step fx m e) as [m1 o1]. cbn in *.
+  specialize (IH m1 HI1 ltac:(lia) Hd1). destruct (run_from fx m1 es) as [m2 o2]. exact IH.
+Qed.
+
+Lemma run_from_removed_dead fx m es g t id :
+  Inv m -> In (Removed g t id) (snd (run_from fx m es)) -> get (fst (run_from fx m es)) id = None.
+Proof.
+  revert m; induction es as [|e es IH]; intros m HI Hin; cbn in *; [contradiction|].
+  pose proof (step_inv fx m e HI) as HI1. destruct (step_conns fx m e id HI) as [_ Hs].
+  destruct (step fx m e) as [m1 o1]. cbn in *.
+  pose proof (dead_stays_dead fx m1 es id HI1) as Hdd. specialize (IH m1 HI1).
+  destruct (run_from fx m1 es) as [m2 o2]. cbn in *.
+  apply in_app_or in Hin. destruct Hin as [Hin|Hin]; auto.
+  destruct (Hs _ _ Hin) as [Hd Hlt]. auto.
+Qed.
+
+Theorem removed_id_not_handed_out fx n0 es g t id :
+  In (Removed g t id) (snd (run_from fx (init n0) es)) -> get (fst (run_from fx (init n0) es)) id = None.
+Proof. apply run_from_removed_dead, Inv_init. Qed.
+
+(** * (i) a loss that the goroutine sees removes the connection, and the next READY makes a new one *)
+Lemma run_from_cons_fst fx m e r : fst (run_from fx m (e :: r)) = fst (run_from fx (fst (step fx m e)) r).
+Proof. cbn [run_from]. destruct (step fx m e) as [m1 o1]. cbn [fst snd]. destruct (run_from fx m1 r). reflexivity. Qed.
+
+Lemma run_from_cons_snd fx m e r :
+  snd (run_from fx m (e :: r)) = snd (step fx m e) ++ snd (run_from fx (fst (step fx m e)) r).
+Proof. cbn [run_from]. destruct (step fx m e) as [m1 o1]. cbn [fst snd]. destruct (run_from fx m1 r). reflexivity. Qed.
+
+Lemma run_from_app_fst fx m a b : fst (run_from fx m (a ++ b)) = fst (run_from fx (fst (run_from fx m a)) b).
+Proof. rewrite run_from_app. destruct (run_from fx m a) as [m1 o1]. cbn [fst snd]. destruct (run_from fx m1 b). reflexivity. Qed.
+
+Lemma run_from_app_snd fx m a b :
+  snd (run_from fx m (a ++ b)) = snd (run_from fx m a) ++ snd (run_from fx (fst (run_from fx m a)) b).
+Proof. rewrite run_from_app. destruct (run_from fx m a) as [m1 o1]. cbn [fst snd]. destruct (run_from fx m1 b). reflexivity. Qed.
+
+Lemma samples_of_app g a b : samples_of g (a ++ b) = samples_of g a ++ samples_of g b.
+Proof.
+  induction a as [|e a IH]; cbn; auto. destruct e as [t|t|k s]; auto. destruct (Nat.eqb k g); cbn; rewrite IH; reflexivity.
+Qed.
+
+Lemma samples_of_cons g e r : samples_of g (e :: r) = samples_of g [e] ++ samples_of g r.
+Proof. apply (samples_of_app g [e] r). Qed.
+
+Lemma step_frame fx m e g go :
+  Inv m -> samples_of g [e] = [] -> nth_error (m_gors m) g = Some go ->
+  nth_error (m_gors (fst (step fx m e))) g = Some go.
+Proof.
+  intros HI Hs Hg. destruct e as [t|t|k s]; cbn in *.
+  - destruct (lookup t (m_targets m)); cbn; auto. rewrite nth_error_app1; auto. apply nth_error_Some; congruence.
+  - destruct (lookup t (m_targets m)); cbn; auto.
+  - destruct (Nat.eqb k g) eqn:Hkg; [discriminate|]. apply Nat.eqb_neq in Hkg.
+    destruct (gor_cases m k) as [Hd|[gk [Hk Ha]]].
+    + rewrite (sample_dead _ _ _ _ Hd). exact Hg.
+    + destruct (sample_spec fx m k s gk HI Hk Ha) as [go' (Hgs & _)].
+      rewrite Hgs. rewrite set_nth_other by congruence. exact Hg.
+Qed.
+
+Lemma conn_alive m g go id : Inv m -> nth_error (m_gors m) g = Some go -> g_conn go = Some id ->
+                             g_alive go = true /\ g_started go = true.
+Proof.
+  intros HI Hg Hc. destruct (inv_ok _ HI _ _ Hg) as [H1 H2].
+  destruct (g_alive go); destruct (g_started go); auto; try (rewrite H1 in Hc by reflexivity; discriminate);
+    rewrite H2 in Hc by reflexivity; discriminate.
+Qed.
+
+Lemma loss_seen_remove fx s : s <> Ready -> (s = Idle -> fx = true) -> loss_seen fx s = true.
+Proof. destruct s; cbn; intros H1 H2; auto; try contradiction. Qed.
+
+(** samples that are not seen as a loss leave the connection alone *)
+Lemma keep_conn fx m es g go id :
+  Inv m -> nth_error (m_gors m) g = Some go -> g_conn go = Some id ->
+  (forall s, In s (samples_of g es) -> loss_seen fx s = false) ->
+  exists go', nth_error (m_gors (fst (run_from fx m es))) g = Some go' /\ g_conn go' = Some id /\ g_target go' = g_target go.
+Proof.
+  revert m go; induction es as [|e es IH]; intros m go HI Hg Hc Hall.
+  - exists go. auto.
+  - rewrite run_from_cons_fst. rewrite samples_of_cons in Hall.
+    assert (Hstep : exists go', nth_error (m_gors (fst (step fx m e))) g = Some go' /\ g_conn go' = Some id /\ g_target go' = g_target go).
+    { destruct (samples_of g [e]) as [|s0 l0] eqn:Hse.
+      - exists go. split; auto. apply step_frame; auto.
+      - destruct e as [t|t|k s]; cbn in Hse; try discriminate.
+        destruct (Nat.eqb k g) eqn:Hkg; [|discriminate]. apply Nat.eqb_eq in Hkg; subst k. inversion Hse; subst s0 l0.
+        destruct (conn_alive _ _ _ _ HI Hg Hc) as [Ha Hst].
+        destruct (sample_spec fx m g s go HI Hg Ha) as [go' (Hgs & _ & Ht & _ & _ & Hkind)]. cbn [step].
+        exists go'. rewrite Hgs, (set_nth_same _ _ _ _ Hg). split; auto. split; auto.
+        destruct Hkind as [Hc0 Hs Hc' Hcs Hn Ho | id' tl Hc0 Hst0 Hs Hfx Hc' Hcs Hn Ho Htl | Hc' Hcs Hn Ho _ _].
+        + congruence.
+        + pose proof (Hall s (or_introl eq_refl)) as Hf. pose proof (loss_seen_remove fx s Hs Hfx). congruence.
+        + congruence. }
+    destruct Hstep as [go1 (Hg1 & Hc1 & Ht1)].
+    destruct (IH (fst (step fx m e)) go1 (step_inv fx m e HI) Hg1 Hc1) as [go' (H1 & H2 & H3)].
+    { intros s Hs. apply Hall. apply in_or_app. right; exact Hs. }
+    exists go'. repeat split; auto. congruence.
+Qed.
+
+(** the sample at which the loss is seen *)
+Lemma at_loss fx m g go id s :
+  Inv m -> nth_error (m_gors m) g = Some go -> g_conn go = Some id -> loss_seen fx s = true ->
+  In (Removed g (g_target go) id) (snd (sample fx m g s)) /\ gconn (fst (sample fx m g s)) g = None /\
+  (s <> Shutdown -> running (fst (sample fx m g s)) g).
+Proof.
+  intros HI Hg Hc Hl. destruct (conn_alive _ _ _ _ HI Hg Hc) as [Ha Hst].
+  destruct (sample_spec fx m g s go HI Hg Ha) as [go' (Hgs & _ & Ht & Hst' & Ha' & Hkind)].
+  assert (Hrun : s <> Shutdown -> running (fst (sample fx m g s)) g).
+  { intros Hs. exists go'. rewrite Hgs, (set_nth_same _ _ _ _ Hg). repeat split; auto.
+    rewrite Ha'. destruct s; auto; contradiction. }
+  rewrite (gconn_set_nth _ _ _ _ g Hgs) by congruence. rewrite Nat.eqb_refl.
+  destruct Hkind as [Hc0 Hs Hc' Hcs Hn Ho | id' tl Hc0 Hst0 Hs Hfx Hc' Hcs Hn Ho Htl | Hc' Hcs Hn Ho Hr Hdis].
+  - congruence.
+  - rewrite Ho. rewrite Hc in Hc0; inversion Hc0; subst id'. repeat split; auto. left; reflexivity.
+  - exfalso. destruct (Hdis Hst) as [H|[H|[H1 H2]]]; subst; cbn in Hl; congruence.
+Qed.
+
+(** after the loss was seen: the goroutine runs, and whatever connection it has or gets has an id >= lo *)
+Definition after_ok (lo : N) (m : mgr) (g : nat) : Prop :=
+  running m g /\ lo <= m_next m /\ (forall id, gconn m g = Some id -> lo <= id).
+
+Lemma after_ok_step fx m e g lo :
+  Inv m -> after_ok lo m g -> ~ In Shutdown (samples_of g [e]) -> after_ok lo (fst (step fx m e)) g.
+Proof.
+  intros HI [[go (Hg & Ha & Hst)] [Hlo Hid]] Hns.
+  pose proof (step_ids fx m e HI) as [Hmono _].
+  destruct (samples_of g [e]) as [|s0 l0] eqn:Hse.
+  - pose proof (step_frame fx m e g go HI Hse Hg) as Hg1. split; [|split].
+    + exists go; auto.
+    + lia.
+    + intros id. unfold gconn in *. rewrite Hg1. rewrite Hg in Hid. auto.
+  - destruct e as [t|t|k s]; cbn in Hse; try discriminate.
+    destruct (Nat.eqb k g) eqn:Hkg; [|discriminate]. apply Nat.eqb_eq in Hkg; subst k. inversion Hse; subst s0 l0.
+    assert (Hs : s <> Shutdown) by (intros ->; apply Hns; left; reflexivity).
+    cbn [step] in *.
+    destruct (sample_spec fx m g s go HI Hg Ha) as [go' (Hgs & _ & Ht & Hst' & Ha' & Hkind)].
+    split; [|split].
+    + exists go'. rewrite Hgs, (set_nth_same _ _ _ _ Hg). repeat split; auto. rewrite Ha'. destruct s; auto; contradiction.
+    + lia.
+    + intros id. rewrite (gconn_set_nth _ _ _ _ g Hgs) by congruence. rewrite Nat.eqb_refl.
+      destruct Hkind as [Hc0 Hs0 Hc' Hcs Hn Ho | id' tl Hc0 Hst0 Hs0 Hfx Hc' Hcs Hn Ho Htl | Hc' Hcs Hn Ho Hr Hdis].
+      * rewrite Hc'. intros H; inversion H; subst. exact Hlo.
+      * rewrite Hc'. discriminate.
+      * rewrite Hc'. intros H. apply Hid. unfold gconn. rewrite Hg. exact H.
+Qed.
+
+Lemma after_ok_run fx m es g lo :
+  Inv m -> after_ok lo m g -> ~ In Shutdown (samples_of g es) -> after_ok lo (fst (run_from fx m es)) g.
+Proof.
+  revert m; induction es as [|e es IH]; intros m HI Hok Hns; [exact Hok|].
+  rewrite run_from_cons_fst. rewrite samples_of_cons in Hns. apply IH.
+  - apply step_inv; auto.
+  - apply after_ok_step; auto. intros H. apply Hns. apply in_or_app. left; exact H.
+  - intros H. apply Hns. apply in_or_app. right; exact H.
+Qed.
+
+Lemma final_ready fx m g lo :
+  Inv m -> after_ok lo m g -> exists id2, gconn (fst (sample fx m g Ready)) g = Some id2 /\ lo <= id2.
+Proof.
+  intros HI [[go (Hg & Ha & Hst)] [Hlo Hid]].
+  destruct (sample_spec fx m g Ready go HI Hg Ha) as [go' (Hgs & _ & Ht & Hst' & Ha' & Hkind)].
+  rewrite (gconn_set_nth _ _ _ _ g Hgs) by congruence. rewrite Nat.eqb_refl.
+  destruct Hkind as [Hc0 Hs0 Hc' Hcs Hn Ho | id' tl Hc0 Hst0 Hs0 Hfx Hc' Hcs Hn Ho Htl | Hc' Hcs Hn Ho Hr Hdis].
+  - exists (m_next m). auto.
+  - contradiction.
+  - destruct (g_conn go) as [id|] eqn:Hc; [|exfalso; apply (Hr eq_refl); reflexivity].
+    exists id. split; auto. apply Hid. unfold gconn. rewrite Hg. exact Hc.
+Qed.
+
+Lemma split_first (p : chan_state -> bool) g es :
+  existsb p (samples_of g es) = true ->
+  exists a s b, es = a ++ ESample g s :: b /\ p s = true /\ (forall x, In x (samples_of g a) -> p x = false).
+Proof.
+  induction es as [|e es IH]; cbn; [discriminate|]. intros H.
+  assert (Hrec : existsb p (samples_of g es) = true ->
+                 samples_of g [e] = [] \/ (exists s, e = ESample g s /\ p s = false) ->
+                 exists a s b, e :: es = a ++ ESample g s :: b /\ p s = true /\ (forall x, In x (samples_of g a) -> p x = false)).
+  { intros Hex He. destruct (IH Hex) as [a [s [b (-> & Hp & Hall)]]]. exists (e :: a), s, b. repeat split; auto.
+    intros x Hx. rewrite samples_of_cons in Hx. apply in_app_or in Hx. destruct Hx as [Hx|Hx]; auto.
+    destruct He as [He|[s' [-> Hp']]]; [rewrite He in Hx; contradiction|].
+    cbn in Hx. rewrite Nat.eqb_refl in Hx. destruct Hx as [<-|[]]. exact Hp'. }
+  destruct e as [t|t|k s]; try (apply Hrec; auto; fail).
+  destruct (Nat.eqb k g) eqn:Hkg.
+  - apply Nat.eqb_eq in Hkg; subst k. cbn in H. destruct (p s) eqn:Hp.
+    + exists [], s, es. repeat split; auto. intros x [].
+    + apply Hrec; auto. right. exists s; auto.
+  - apply Hrec; auto. left. cbn. rewrite Hkg. reflexivity.
+Qed.
+
+Theorem seen_loss_replaces fx m g go id1 es2 :
+  Inv m -> nth_error (m_gors m) g = Some go -> g_conn go = Some id1 ->
+  existsb (loss_seen fx) (samples_of g es2) = true -> ~ In Shutdown (samples_of g es2) ->
+  In (Removed g (g_target go) id1) (snd (run_from fx m (es2 ++ [ESample g Ready]))) /\
+  exists id2, gconn (fst (run_from fx m (es2 ++ [ESample g Ready]))) g = Some id2 /\ id1 < id2.
+Proof.
+  intros HI Hg Hc Hex Hns.
+  destruct (split_first _ _ _ Hex) as [a [s [b (-> & Hp & Hall)]]].
+  rewrite samples_of_app in Hns. cbn in Hns. rewrite Nat.eqb_refl in Hns.
+  assert (Hs : s <> Shutdown). { intros ->. apply Hns. apply in_or_app. right. left. reflexivity. }
+  assert (Hnb : ~ In Shutdown (samples_of g b)). { intros H. apply Hns. apply in_or_app. right. right. exact H. }
+  rewrite <- app_assoc. cbn [app].
+  rewrite run_from_app_fst, run_from_app_snd.
+  set (ma := fst (run_from fx m a)).
+  assert (HIa : Inv ma) by (apply run_from_inv; auto).
+  destruct (keep_conn fx m a g go id1 HI Hg Hc Hall) as [goa (Hga & Hca & Hta)]. fold ma in Hga.
+  rewrite run_from_cons_fst, run_from_cons_snd. cbn [step].
+  destruct (at_loss fx ma g goa id1 s HIa Hga Hca Hp) as (Hrem & Hnone & Hrun).
+  set (ms := fst (sample fx ma g s)) in *.
+  assert (HIs : Inv ms) by (apply (step_inv fx ma (ESample g s)); auto).
+  pose proof (step_ids fx ma (ESample g s) HIa) as [Hmono _]. cbn [step] in Hmono. fold ms in Hmono.
+  destruct (inv_own _ HIa _ _ _ Hga Hca) as [_ Hlt].
+  assert (Hok : after_ok (m_next ms) ms g).
+  { split; [apply Hrun; auto|]. split; [lia|]. intros id H. rewrite Hnone in H. discriminate. }
+  rewrite run_from_app_fst, run_from_app_snd.
+  pose proof (after_ok_run fx ms b g (m_next ms) HIs Hok Hnb) as Hokb.
+  set (mb := fst (run_from fx ms b)) in *.
+  assert (HIb : Inv mb) by (apply run_from_inv; auto).
+  destruct (final_ready fx mb g (m_next ms) HIb Hokb) as [id2 (Hid2 & Hle)].
+  split.
+  - apply in_or_app. right. apply in_or_app. left. rewrite <- Hta. exact Hrem.
+  - exists id2. split; [|lia]. rewrite run_from_cons_fst. cbn [step run_from fst]. exact Hid2.
+Qed.
+
+(** ** the same for a channel whose every state the goroutine reads *)
+Lemma chan_ok_app_r a b : chan_ok (a ++ b) = true -> chan_ok b = true.
+Proof.
+  induction a as [|x a IH]; auto. intros H. apply IH. cbn [app] in H.
+  destruct (a ++ b) as [|y r] eqn:Hab; auto. cbn in H. apply andb_true_iff in H. apply H.
+Qed.
+
+Lemma chan_ok_no_shutdown_inside l x : chan_ok (l ++ [x]) = true -> ~ In Shutdown l.
+Proof.
+  induction l as [|a l IH]; intros H Hin; [contradiction|].
+  cbn [app] in H. destruct (l ++ [x]) as [|b r] eqn:Hlx; [destruct l; discriminate|].
+  cbn in H. apply andb_true_iff in H. destruct H as [H1 H2]. destruct Hin as [->|Hin].
+  - discriminate.
+  - apply IH; auto.
+Qed.
+
+Lemma chan_ok_before_ready l : chan_ok (l ++ [Ready]) = true -> l <> [] -> exists l', l = l' ++ [Connecting].
+Proof.
+  intros H Hne. destruct (exists_last Hne) as [l' [y ->]]. exists l'. f_equal.
+  rewrite <- app_assoc in H. apply chan_ok_app_r in H. cbn in H. destruct y; try discriminate. reflexivity.
+Qed.
+
+Theorem channel_loss_replaces fx m g go id1 es2 :
+  Inv m -> nth_error (m_gors m) g = Some go -> g_conn go = Some id1 ->
+  samples_of g es2 <> [] -> chan_ok (Ready :: samples_of g es2 ++ [Ready]) = true ->
+  In (Removed g (g_target go) id1) (snd (run_from fx m (es2 ++ [ESample g Ready]))) /\
+  exists id2, gconn (fst (run_from fx m (es2 ++ [ESample g Ready]))) g = Some id2 /\ id1 < id2.
+Proof.
+  intros HI Hg Hc Hne Hok. apply seen_loss_replaces; auto.
+  - change (Ready :: samples_of g es2 ++ [Ready]) with ([Ready] ++ (samples_of g es2 ++ [Ready])) in Hok.
+    apply chan_ok_app_r in Hok. destruct (chan_ok_before_ready _ Hok Hne) as [l' ->].
+    rewrite existsb_app. cbn. apply orb_true_r.
+  - intros Hin. change (Ready :: samples_of g es2 ++ [Ready]) with ((Ready :: samples_of g es2) ++ [Ready]) in Hok.
+    apply (chan_ok_no_shutdown_inside _ _ Hok). right; exact Hin.
+Qed.
+
+(** the two theorems above for the states the manager can be in *)
+Theorem seen_loss_replaces_run fx n0 es1 g go id1 es2 :
+  let m := fst (run_from fx (init n0) es1) in
+  nth_error (m_gors m) g = Some go -> g_conn go = Some id1 ->
+  existsb (loss_seen fx) (samples_of g es2) = true -> ~ In Shutdown (samples_of g es2) ->
+  In (Removed g (g_target go) id1) (snd (run_from fx m (es2 ++ [ESample g Ready]))) /\
+  exists id2, gconn (fst (run_from fx m (es2 ++ [ESample g Ready]))) g = Some id2 /\ id1 < id2.
+Proof. cbn zeta. apply seen_loss_replaces. apply run_from_inv, Inv_init. Qed.
+
+Theorem channel_loss_replaces_run fx n0 es1 g go id1 es2 :
+  let m := fst (run_from fx (init n0) es1) in
+  nth_error (m_gors m) g = Some go -> g_conn go = Some id1 ->
+  samples_of g es2 <> [] -> chan_ok (Ready :: samples_of g es2 ++ [Ready]) = true ->
+  In (Removed g (g_target go) id1) (snd (run_from fx m (es2 ++ [ESample g Ready]))) /\
+  exists id2, gconn (fst (run_from fx m (es2 ++ [ESample g Ready]))) g = Some id2 /\ id1 < id2.
+Proof. cbn zeta. apply channel_loss_replaces. apply run_from_inv, Inv_init. Qed.
